@@ -112,3 +112,79 @@ pub fn from_options(r: &json_syntax::print::Options) -> rp::Opts {
         }),
     }
 }
+
+/// Drives an iterator through the std `Iterator` protocol beyond plain `next()`: `size_hint`
+/// at every step, `count`, `last`, `nth` on a fresh and on a partially consumed iterator,
+/// `step_by`, `skip`, `fold`. `want` is what repeated `next()` must yield (computed by the caller
+/// from a linear scan); `make` builds a fresh iterator. An implementation that overrides any of
+/// these methods must agree with the default ones.
+pub fn iterator_protocol<I, T, F>(what: &str, make: F, want: &[T]) -> Result<(), String>
+where
+    I: Iterator<Item = T>,
+    T: PartialEq + std::fmt::Debug + Clone,
+    F: Fn() -> I,
+{
+    let n = want.len();
+    let bad = |m: String| Err(format!("{what}: {m} (a linear scan gives {want:?})"));
+    // next() and size_hint at every step
+    let mut it = make();
+    for i in 0..=n {
+        let (lo, hi) = it.size_hint();
+        let rem = n - i;
+        if lo > rem || hi.map(|h| h < rem).unwrap_or(false) {
+            return bad(format!("size_hint() = ({lo}, {hi:?}) with {rem} items left"));
+        }
+        let got = it.next();
+        if got.as_ref() != want.get(i) {
+            return bad(format!("next() number {i} yields {got:?}"));
+        }
+    }
+    if make().count() != n {
+        return bad(format!("count() = {}", make().count()));
+    }
+    if make().last().as_ref() != want.last() {
+        return bad(format!("last() = {:?}", make().last()));
+    }
+    let folded: Vec<T> = make().fold(Vec::new(), |mut v, x| {
+        v.push(x);
+        v
+    });
+    if folded != want {
+        return bad(format!("fold() visits {folded:?}"));
+    }
+    for i in 0..=n + 1 {
+        let got = make().nth(i);
+        if got.as_ref() != want.get(i) {
+            return bad(format!("nth({i}) on a fresh iterator yields {got:?}"));
+        }
+        let skipped: Vec<T> = make().skip(i).collect();
+        if skipped != want[i.min(n)..] {
+            return bad(format!("skip({i}) yields {skipped:?}"));
+        }
+    }
+    for taken in 1..=n.min(3) {
+        for j in 0..=n {
+            let mut it = make();
+            for _ in 0..taken {
+                it.next();
+            }
+            let got = it.nth(j);
+            if got.as_ref() != want.get(taken + j) {
+                return bad(format!("nth({j}) after {taken} next() yields {got:?}"));
+            }
+            let rest: Vec<T> = it.collect();
+            let from = (taken + j + 1).min(n);
+            if rest != want[from..] {
+                return bad(format!("after {taken} next() and nth({j}) the rest is {rest:?}"));
+            }
+        }
+    }
+    for step in 2..=3usize {
+        let got: Vec<T> = make().step_by(step).collect();
+        let exp: Vec<T> = want.iter().step_by(step).cloned().collect();
+        if got != exp {
+            return bad(format!("step_by({step}) yields {got:?}"));
+        }
+    }
+    Ok(())
+}
